@@ -54,6 +54,16 @@ CLAIMED = {
             "Every node's From/To/Value/supplied gas/calldata or init code/parent and Ret/Err class/RemainingGas are compared with the shadow attempt log after the program has had every chance to overwrite its memory; refused attempts must have a node carrying a refusal error; workloads overlap argument and return areas, overwrite arguments after the call and grow memory.",
             "Shadow log from the debug-tracer stream; calldata compared when the step's memory (<= 64 KiB) was copied; refused CALLs: supplied gas := gas handed back.",
             "DESIGN.md §3 C08"),
+    "C10": ("exploration",
+            "online shadow tracer driven by debug-tracer events (storage address, shadow call index, independently decoded value at each journal step) compared with the complete tracer dump",
+            "Call trees mixing all call kinds, creates and re-entrancy, every frame registering and journaling shared variables through all eight journal opcodes with repeating values, frames failing after journaling, run plain / with real Aspects / with an injected join-point failure on Frontier..Cancun; every key the tracer holds must equal the shadow's per-(account, variable, call index) chronological lists with immediate repeats collapsed; anything the shadow did not produce is reported.",
+            "Shadow call index from the shadow attempt log (C08); decoder from C09; the hook dump enumerates every key.",
+            "DESIGN.md §3 C10"),
+    "C13": ("exploration",
+            "boundary monitor: the harness-supplied Transfer function observes real balances before/after each transfer; offline comparison with the complete dump of account balance journals",
+            "For every transfer performed by the VM (C10's call trees: zero-value, self-transfers, new and code-less recipients, create endowments, frames that later revert, injected join-point failures) the expected entries per (account, shadow call index) are rebuilt from the observed balances and compared as integers with the complete dump and Balance(); entries without an observed transfer are reported.",
+            "core.Transfer / StateDB balances are ground truth; call index from the shadow attempt log.",
+            "DESIGN.md §3 C13"),
 }
 
 # Properties not (yet) claimed. Reason must be current.
